@@ -1,7 +1,7 @@
 //@unit C01_ringops
 //@props C01 C03
 //@safetyprops C10 C14
-//@desc Ring surgery of the sweep (loop-free functions, harnesses over every aliasing of small rings): AddOutPt (rings of 1, 2, 3: a point equal to the end it extends is not added again, otherwise exactly one new vertex goes between the front and the back end with consistent links and the front end moves only when the front edge adds - so no equal neighbours arise at the growing end); JoinOutrecPaths (rings 1x1, 2x1, 2x3, 3x2: one ring holding every vertex of both paths exactly once, attached at e1's end, front/back ends and edges taken over, e2's OutRec emptied and pointed at the survivor); AddLocalMaxPoly (call trace; C11: succeeded_ is cleared exactly when both edges claim the same side of their OutRec and neither is an open-path end, and then nothing is built; otherwise one vertex is added on e1's side, one OutRec is closed or two are joined exactly once).
+//@desc Ring surgery of the sweep (loop-free functions, harnesses over every aliasing of small rings): AddOutPt (rings of 1, 2, 3: a point equal to the end it extends is not added again, otherwise exactly one new vertex goes between the front and the back end with consistent links and the front end moves only when the front edge adds - so no equal neighbours arise at the growing end); JoinOutrecPaths (rings 1x1, 2x1, 2x3, 3x2: one ring holding every vertex of both paths exactly once, attached at e1's end, front/back ends and edges taken over, e2's OutRec emptied and pointed at the survivor); SwapOutrecs (every hot/cold combination of two edges on one or two OutRecs: the edges exchange OutRecs, each takes exactly the side the other had, the coupling invariant - a hot edge is the front or back edge of its OutRec - is preserved); AddLocalMaxPoly (call trace; C11: succeeded_ is cleared exactly when both edges claim the same side of their OutRec and neither is an open-path end, and then nothing is built; otherwise one vertex is added on e1's side, one OutRec is closed or two are joined exactly once).
 #include "vf.h"
 //@include engine_types.inc
 static inline bool Point64_eq(Point64 a, Point64 b) { return a.x == b.x && a.y == b.y; }
@@ -143,6 +143,37 @@ void h_LocMax(void)
   VF_CANARY();
 }
 #endif
+/* ---------- SwapOutrecs: two crossing edges exchange the contours they are building ---------- */
+#ifdef SWAPOR
+//@extract file=CPP/Clipper2Lib/src/clipper.engine.cpp func=SwapOutrecs byptr=e1,e2 ifdef=SWAPOR
+//@sub /&\(\*e1\)/e1/ min=0
+//@sub /&\(\*e2\)/e2/ min=0
+//@end
+#define COUPLED(e) ((e)->outrec == NULL || (e)->outrec->front_edge == (e) || (e)->outrec->back_edge == (e))
+void h_SwapOr(void)
+{
+  Active e1, e2, x1, x2; OutRec o1, o2;
+  unsigned c1 = nondet_uint() % 3, c2 = nondet_uint() % 3;      /* 0: cold edge, 1: builds o1, 2: builds o2 */
+  __CPROVER_assume(c1 != 0 || c2 != 0);                          /* IntersectEdges swaps only when at least one edge is hot */
+  e1.outrec = c1 == 0 ? NULL : c1 == 1 ? &o1 : &o2; e2.outrec = c2 == 0 ? NULL : c2 == 1 ? &o1 : &o2;
+  /* coupling invariant: a hot edge is the front or the back edge of its OutRec, the two sides are different edges */
+  bool f1 = nondet_bool(), f2 = nondet_bool();
+  o1.front_edge = &x1; o1.back_edge = &x1; o2.front_edge = &x2; o2.back_edge = &x2;
+  if (e1.outrec) { if (f1) e1.outrec->front_edge = &e1; else e1.outrec->back_edge = &e1; }
+  if (e2.outrec) { if (e2.outrec == e1.outrec) { if (f1) e2.outrec->back_edge = &e2; else e2.outrec->front_edge = &e2; } else { if (f2) e2.outrec->front_edge = &e2; else e2.outrec->back_edge = &e2; } }
+  OutRec* or1 = e1.outrec; OutRec* or2 = e2.outrec; Active* o1f = o1.front_edge; Active* o1b = o1.back_edge; Active* o2f = o2.front_edge; Active* o2b = o2.back_edge;
+  SwapOutrecs(&e1, &e2);
+  if (or1 == or2) {
+    __CPROVER_assert(e1.outrec == or1 && e2.outrec == or1 && or1->front_edge == (or1 == &o1 ? o1b : o2b) && or1->back_edge == (or1 == &o1 ? o1f : o2f), "both edges build the same contour: its sides are exchanged");
+  } else {
+    __CPROVER_assert(e1.outrec == or2 && e2.outrec == or1, "the edges exchange their OutRecs");
+    __CPROVER_assert(COUPLED(&e1) && COUPLED(&e2), "each hot edge is again the front or the back edge of the OutRec it now builds");
+    if (or1) __CPROVER_assert((or1 == &o1 ? (o1f == &e1 ? (o1.front_edge == &e2 && o1.back_edge == o1b) : (o1.back_edge == &e2 && o1.front_edge == o1f)) : (o2f == &e1 ? (o2.front_edge == &e2 && o2.back_edge == o2b) : (o2.back_edge == &e2 && o2.front_edge == o2f))), "e2 takes exactly the side e1 had; the other side is untouched");
+    if (or2) __CPROVER_assert((or2 == &o1 ? (o1f == &e2 ? (o1.front_edge == &e1 && o1.back_edge == o1b) : (o1.back_edge == &e1 && o1.front_edge == o1f)) : (o2f == &e2 ? (o2.front_edge == &e1 && o2.back_edge == o2b) : (o2.back_edge == &e1 && o2.front_edge == o2f))), "e1 takes exactly the side e2 had; the other side is untouched");
+  }
+  VF_CANARY();
+}
+#endif
 //@run name=AddOutPt.ring1 entry=h_AddOutPt defs=ADDOUTPT,R=1 unwind=6 flags="--bounds-check --pointer-check" solver=cadical timeout=120
 //@run name=AddOutPt.ring2 entry=h_AddOutPt defs=ADDOUTPT,R=2 unwind=6 flags="--bounds-check --pointer-check" solver=cadical timeout=120
 //@run name=AddOutPt.ring3 entry=h_AddOutPt defs=ADDOUTPT,R=3 unwind=6 flags="--bounds-check --pointer-check" solver=cadical timeout=120
@@ -152,3 +183,4 @@ void h_LocMax(void)
 //@run name=JoinOutrecPaths.3x2 entry=h_Join defs=JOIN,R=3,R2=2 unwind=8 flags="--bounds-check --pointer-check" solver=cadical timeout=120
 //@run name=AddLocalMaxPoly entry=h_LocMax defs=LOCMAX unwind=4 flags="--bounds-check --pointer-check" solver=cadical timeout=120 props=C11,C01
 //@assume A5 (C01_ringops): in the AddLocalMaxPoly harness Split, SwapFrontBackSides, AddOutPt, GetPrevHotEdge, SetOwner, UncoupleOutRec, JoinOutrecPaths are counting stubs and the edge predicates answer arbitrarily; new OutPt is a one-element pool.
+//@run name=SwapOutrecs entry=h_SwapOr defs=SWAPOR unwind=3 flags="--bounds-check --pointer-check" solver=cadical timeout=120
